@@ -55,7 +55,7 @@ Schema(c) ==
     ("Base0"  :> DStruct(NB(c), "", <<Fld("id", Str), FldD("weight", I32, VInt(13))>>, <<>>, FALSE)) @@
     ("Circle" :> DStruct("nf", "Base0", <<Fld("radius", TFloat("Float64", Unset, Unset))>>, <<>>, FALSE)) @@
     \* a namespace that declares nothing but an alias
-    ("Label" :> DAlias("ne", TStr(1, Unset, ""), "")) @@
+    ("Label" :> DAlias("aa", TStr(1, Unset, ""), "")) @@
     ("Entry" :> DStruct(AncNs(c), "", <<Fld("ident", Str), Fld("label", TNull(Str)), FldD("rank", S64, VInt(13))>>, <<>>, FALSE)) @@
     (IF c.chain = "marker3"
      THEN ("PinnedEntry" :> DStruct(AncNs(c), "Entry", <<>>, <<>>, FALSE)) ELSE <<>>) @@
@@ -73,6 +73,7 @@ Schema(c) ==
                                            Tag("flags", TNull(TList(TBool, Unset, Unset)))>>)) @@
     ("More" :> DUnion("na", "Choice", FALSE, <<Tag("extra", I32), Tag("plain", TVoid)>>)) @@
     ("Up" :> DAlias("na", TRef("Upload"), "")) @@
+    ("UPL" :> DAlias("na", TRef("Upload"), "")) @@          \* the class binding keeps the raw name, the validator is Upl_validator
     \* aliases whose names are not in the canonical capitalisation of the Python backends (RA -> Ra)
     ("RA" :> DAlias("na", TStr(Unset, Unset, ""), "")) @@
     ("RB" :> DAlias("na", TRef("RA"), "")) @@
@@ -110,18 +111,18 @@ RoutesOf(c) == <<
     Route("na", "put", 1, ArgType(c), TRef("Entry"), IF c.dep = "late" THEN "none" ELSE c.dep,
           IF c.dep = "by" THEN <<"put", 2>> ELSE <<>>, c.style),
     Route("na", "put", 2, ArgType(c), TVoid, IF c.dep = "late" THEN "by" ELSE "none",
-          IF c.dep = "late" THEN <<"put", 3>> ELSE <<>>, "rpc"),
+          IF c.dep = "late" THEN <<"put", 3>> ELSE <<>>, c.style),       \* a Void result in every style
     Route("na", "put", 3, TRef("Choice"), TRef("Choice"), "none", <<>>, "rpc"),
     Route("na", "get_thing", 1, TVoid, TRef("Tree"), IF c.dep = "late" THEN "none" ELSE "plain", <<>>, "download"),
     Route("nc", "ping", 1, TVoid, TVoid, "none", <<>>, "rpc"),
     \* (in the ring model nc must import na only, or nb <-> nc would be a direct mutual import)
     Route("nc", "whoami", 1, TVoid, IF c.ring THEN TVoid ELSE TRef("Entry"), "none", <<>>, "rpc") >>
-Namespaces(c) == {"na", NB(c), "nc", "nd", "ne", "nf"}
+Namespaces(c) == {"na", NB(c), "nc", "nd", "aa", "nf"}
 \* python_types names a module after its namespace, with an underscore appended to Python reserved words
 PyReserved == {"async", "class", "for", "pass", "while", "break", "continue", "import", "from", "global", "lambda"}
 PyModule(ns) == IF ns \in PyReserved THEN ns \o "_" ELSE ns
 \* the Python backends capitalise names word by word: an all-capitals name keeps only its first capital
-PyName(n) == CASE n = "RA" -> "Ra" [] n = "RB" -> "Rb" [] OTHER -> n
+PyName(n) == CASE n = "RA" -> "Ra" [] n = "RB" -> "Rb" [] n = "UPL" -> "Upl" [] OTHER -> n
 
 \* ------------------------------------------------------------- imports and loading
 RECURSIVE TypeRefs(_)
